@@ -79,16 +79,41 @@ pub fn gen_and_run<G: AffineRepr>(curve: &str, ci: u64, modulus: &str, seed: u64
                 b[n / 2 + i] = F::<G>::zero();
             }
         }
-        let gf: Vec<F<G>> = match c % 4 {
+        let gf: Vec<F<G>> = match c % 7 {
             0 => vec![F::<G>::one(); n],
             1 => {
                 let u = F::<G>::rand(&mut rng);
                 (0..n).map(|i| if i < n / 3 { F::<G>::one() } else { u }).collect()
             }
+            // a step exactly at the midpoint (first-phase gates fill the lower half), ones then u
+            2 => {
+                let u = F::<G>::rand(&mut rng);
+                (0..n).map(|i| if i < n / 2 { F::<G>::one() } else { u }).collect()
+            }
+            // two different constants on the two halves
+            3 => {
+                let (lo, hi) = (F::<G>::rand(&mut rng), F::<G>::rand(&mut rng));
+                (0..n).map(|i| if i < n / 2 { lo } else { hi }).collect()
+            }
+            // a step one off the midpoint
+            4 => {
+                let u = F::<G>::rand(&mut rng);
+                (0..n).map(|i| if i + 1 < n / 2 + (c % 2) * 2 { F::<G>::one() } else { u }).collect()
+            }
             _ => vec_kind(&mut rng, n, 0, true),
         };
-        let hf: Vec<F<G>> = match c % 3 {
+        let hf: Vec<F<G>> = match c % 5 {
             0 => vec![F::<G>::one(); n],
+            3 => {
+                let (lo, hi) = (F::<G>::rand(&mut rng), F::<G>::rand(&mut rng));
+                (0..n).map(|i| if i < n / 2 { lo } else { hi }).collect()
+            }
+            4 => {
+                let y = F::<G>::rand(&mut rng).inverse().unwrap();
+                let u = F::<G>::rand(&mut rng);
+                let mut acc = F::<G>::one();
+                (0..n).map(|i| { let r = if i < n / 2 { acc } else { acc * u }; acc *= y; r }).collect()
+            }
             1 => {
                 let y = F::<G>::rand(&mut rng).inverse().unwrap();
                 let mut acc = F::<G>::one();
